@@ -338,7 +338,7 @@ theorem ackCore_outcomes {s : State} {env : Env} {ranges : List Range} {lvl : Le
   unfold State.ackCore
   by_cases h1 : s.ackedBuf > 0
   · right; right; exact h1
-  · by_cases h2' : lvl = .oneRTT ∧ sp.hist.skipped.any (acksPacket ranges bot.1 top.2)
+  · by_cases h2' : lvl = .oneRTT ∧ sp.hist.skipped.any (acksPacketBin ranges bot.1 top.2)
     · simp only [h1, h2', if_false]; right; left; simp
     · simp only [h1, h2', if_false, e1]
       have cp := collect_probesOK (decide (ranges.length > 1)) bot.1 top.2 sp.hist.packets sp.hist.first ranges.reverse sp.hist.probes [] []
@@ -499,11 +499,12 @@ theorem ptoSwitch_ackedBuf (s : State) (lvl : Level) (nts : PN) (evs0 : List Ev)
 
 theorem timeoutMain_ackedBuf (s : State) (env : Env) (now : Time) (nts : PN) (evs0 : List Ev) (disc0 : List Frame) :
     (s.timeoutMain env now nts evs0 disc0).1.ackedBuf = s.ackedBuf := by
-  unfold State.timeoutMain
+  unfold State.timeoutMain State.timeoutMainG
   split
   · simp only []; exact detectLostPackets_ackedBuf _ _ _ _
   · split
-    · simp only []
+    · unfold State.antiDeadlockProbe
+      simp only []
       split
       · rfl
       · split <;> rfl
